@@ -26,6 +26,21 @@ Definition QOps : NumOps Q := mkOps Q 0%Q 1%Q
   (fun a b => Qred (a - b)) (fun a b => Qred (a / b))
   Qle_bool (fun z => inject_Z z) Qsqrt.
 
+(* ---------- executable instance with bounded size: results whose denominator exceeds 10^30 are rounded to
+   30 decimal digits (error <= 1e-30 per operation, far below the 1e-9 comparison tolerance); used where chains
+   of divisions and square roots would otherwise make exact numerators grow without bound ---------- *)
+Definition ten60 : positive := (10 ^ 30)%positive.
+Definition Qfix (q : Q) : Q :=
+  if (Qden q <=? ten60)%positive then q
+  else Qmake (Qnum q * Zpos ten60 / Zpos (Qden q)) ten60.
+Definition QsqrtF (q : Q) : Q :=
+  let n := Qnum q in let d := Zpos (Qden q) in
+  if (n <=? 0)%Z then 0%Q else Qmake (Z.sqrt (n * 10 ^ 60 / d)) ten60.
+Definition QOpsF : NumOps Q := mkOps Q 0%Q 1%Q
+  (fun a b => Qfix (a + b)) (fun a b => Qfix (a * b))
+  (fun a b => Qfix (a - b)) (fun a b => Qfix (a / b))
+  Qle_bool (fun z => inject_Z z) QsqrtF.
+
 (* ---------- instance for theorems ---------- *)
 Definition ROps : NumOps R := mkOps R 0%R 1%R Rplus Rmult Rminus Rdiv
   (fun a b => if Rle_dec a b then true else false) IZR sqrt.
